@@ -21,3 +21,55 @@ theorem merge_source_only_read (n : Nat) (h h' : Heap) (src id' : Id) (p : Optio
   fun i nd hi => cpy_old_nodes he i nd hi
 
 end Ucfg.C11
+
+namespace Ucfg.C11
+open Ucfg.Forest
+
+/-- parent links of existing nodes stay inside the heap -/
+def Closed (h : Heap) : Prop := ∀ (i : Nat) (nd : Node) (p : Id), h[i]? = some nd → nd.parent = some p → p < h.length
+
+/-- Path() of any existing node is the same in every extension of the heap: creating configs from a config (Merge with
+it as the source, NewFrom embedding it, Child+Unpack building temporaries) does not change what a concurrent or later
+Path() returns -/
+theorem path_same_after_allocation (h t : Heap) (hc : Closed h) :
+    ∀ (fuel : Nat) (id : Id), id < h.length → storedPath fuel (h ++ t) id = storedPath fuel h id := by
+  intro fuel
+  induction fuel with
+  | zero => intro id _; rfl
+  | succ n ih =>
+    intro id hid
+    simp only [storedPath]
+    rw [List.getElem?_append_left hid]
+    cases hn : h[id]? with
+    | none => rfl
+    | some nd =>
+      simp only
+      cases hp : nd.parent with
+      | none => rfl
+      | some p =>
+        simp only
+        rw [ih p (hc id nd p hn hp)]
+
+/-- the same for Child(): looking a name or an index up in an existing node -/
+theorem child_same_after_allocation (h t : Heap) (id : Id) (hid : id < h.length) (k : String) (i : Nat) :
+    childNamed (h ++ t) id k = childNamed h id k ∧ childAt (h ++ t) id i = childAt h id i := by
+  unfold childNamed childAt getSub
+  rw [List.getElem?_append_left hid]
+  exact ⟨rfl, rfl⟩
+
+/-- together with `cpy_good`: while a config is used as a merge source, Path() of every existing node is unchanged -/
+theorem path_same_while_merge_source (n : Nat) (h h' : Heap) (src id' : Id) (p : Option Id) (f : String)
+    (he : Forest.cpy n h src p f = some (h', id')) (hc : Closed h) (fuel : Nat) (id : Id) (hid : id < h.length) :
+    storedPath fuel h' id = storedPath fuel h id := by
+  obtain ⟨t, rfl, _, _, _⟩ := cpy_good n 0 h src p f h' id' (Nat.zero_le _) he
+  exact path_same_after_allocation h t hc fuel id hid
+
+/-- non-vacuity: a closed two-node heap -/
+example : Closed [⟨none, "", .sub [("a", 1)] []⟩, ⟨some 0, "a", .prim "int" "7"⟩] := by
+  intro i nd p hi hp
+  match i, hi with
+  | 0, hi => simp at hi; subst hi; simp at hp
+  | 1, hi => simp at hi; subst hi; simp at hp; subst hp; decide
+  | n+2, hi => simp at hi
+
+end Ucfg.C11
